@@ -105,20 +105,29 @@ func H_C18_scopeOps() {
 //
 //gosym:reach rendered
 func H_C18_resolveContext() {
-	site := ndChoice("site", 3)
+	site := ndChoice("site", 6)
 	v := ndString("v", 1)
 	srcs := []string{
-		`{{ x := v }}{{ peek() }}|{{ x }}|{{ . }}`,
-		`{{ range x := one }}{{ peek() }}|{{ x }}|{{ . }}{{ end }}`,
-		`{{ x := v }}{{ block b() v }}{{ peek() }}|{{ x }}|{{ . }}{{ end }}`,
+		`{{ x := v }}{{ peek(x) }}|{{ x }}|{{ . }}`,
+		`{{ range x := one }}{{ peek(x) }}|{{ x }}|{{ . }}{{ end }}`,
+		`{{ x := v }}{{ block b() v }}{{ peek(x) }}|{{ x }}|{{ . }}{{ end }}`,
+		// values held in interfaces: identifier lookup yields the value itself, so must Resolve
+		`{{ range i, x := ifs }}{{ peek(x) }}|{{ x }}|{{ . }}{{ end }}`,
+		`{{ range k, x := ifm }}{{ peek(x) }}|{{ x }}|{{ . }}{{ end }}`,
+		`{{ x := ifs[0] }}{{ if true }}{{ peek(x) }}|{{ x }}|{{ . }}{{ end }}`,
 	}
 	set := hxSet([]Option{WithSafeWriter(nil)}, "/m.jet", srcs[site])
 	vars := make(VarMap)
 	vars.Set("v", v)
 	vars.Set("one", []string{v})
+	vars.Set("ifs", []interface{}{v})
+	vars.Set("ifm", map[string]interface{}{"k": v})
 	vars.SetFunc("peek", func(a Arguments) reflect.Value {
 		r := a.Runtime()
 		x := r.Resolve("x")
+		if x.IsValid() != a.Get(0).IsValid() || (x.IsValid() && x.Kind() != a.Get(0).Kind()) {
+			return reflect.ValueOf("#Resolve yields a different kind of value than the identifier")
+		}
 		c := r.Context()
 		s := ""
 		if x.IsValid() {
